@@ -60,6 +60,10 @@ type IndexedState struct {
 
 	cachedRules map[string]*Rule
 
+	// cacheMutex guards cachedRules, which is touched by callers
+	// that do not (and need not) hold the state lock.
+	cacheMutex sync.Mutex
+
 	addHook AddHookFn
 
 	remHook RemHookFn
@@ -254,7 +258,7 @@ func extractTermsAux(ctx *Context, x interface{}, terms StringSet, depth int) {
 
 func (s *IndexedState) Add(ctx *Context, id string, x Map) (string, error) {
 	Log(DEBUG, ctx, "IndexedState.Add", "state", s.Name, "factx", x, "id", id)
-	delete(s.cachedRules, id)
+	s.forgetCachedRule(id)
 	s.slock(ctx, false)
 	id, err := s.add(ctx, id, x)
 	s.sunlock(ctx, false)
@@ -430,7 +434,7 @@ func (s *IndexedState) Rem(ctx *Context, id string) (bool, error) {
 
 func (s *IndexedState) rem(ctx *Context, id string) (bool, error) {
 	Log(DEBUG, ctx, "IndexedState.rem", "name", s.Name, "id", id)
-	delete(s.cachedRules, id)
+	s.forgetCachedRule(id)
 
 	// Currently we don't return an error if the fact isn't found.
 	// ToDo: Reconsider.  For example, maybe have an additional
@@ -523,7 +527,7 @@ func (s *IndexedState) Clear(ctx *Context) error {
 	s.slock(ctx, false)
 	defer s.sunlock(ctx, false)
 
-	s.cachedRules = make(map[string]*Rule)
+	s.resetCachedRules()
 	if err := s.remHooks(ctx); err != nil {
 		return err
 	}
@@ -541,7 +545,7 @@ func (s *IndexedState) Delete(ctx *Context) error {
 	s.slock(ctx, false)
 	defer s.sunlock(ctx, false)
 
-	s.cachedRules = make(map[string]*Rule)
+	s.resetCachedRules()
 	if err := s.remHooks(ctx); err != nil {
 		return err
 	}
@@ -788,16 +792,35 @@ func (s *IndexedState) FindCachedRules(ctx *Context, event Map) (map[string]*Rul
 
 	acc := make(map[string]*Rule)
 	for id, r := range rules {
-		if _, isCached := s.cachedRules[id]; isCached {
-			acc[id] = s.cachedRules[id]
+		s.cacheMutex.Lock()
+		cached, isCached := s.cachedRules[id]
+		s.cacheMutex.Unlock()
+		if isCached {
+			acc[id] = cached
 		} else {
 			rule, err := RuleFromMap(ctx, r)
 			if err != nil {
 				return nil, err
 			}
 			acc[id] = rule
+			s.cacheMutex.Lock()
 			s.cachedRules[id] = rule
+			s.cacheMutex.Unlock()
 		}
 	}
 	return acc, nil
+}
+
+// forgetCachedRule drops the parsed form of the given rule (if any).
+func (s *IndexedState) forgetCachedRule(id string) {
+	s.cacheMutex.Lock()
+	delete(s.cachedRules, id)
+	s.cacheMutex.Unlock()
+}
+
+// resetCachedRules forgets all parsed rules.
+func (s *IndexedState) resetCachedRules() {
+	s.cacheMutex.Lock()
+	s.cachedRules = make(map[string]*Rule)
+	s.cacheMutex.Unlock()
 }
